@@ -32,6 +32,7 @@ from golem.utilities.utilities import urandom_mock
 REQ = ['Serial.HistoryCodec']
 FN = 'fun o => [agree o; holds_b o; guard_b o]'
 DEPTH = 400
+PRE = 'Local Open Scope nat_scope.\n'
 MISSING_META = {'MISSING_INDIVIDUAL': 'This individual could not be restored during `OptHistory.load()`'}
 REPO = os.environ.get('VERIF_REPO', '/repo')
 
@@ -129,8 +130,8 @@ class Tok:
     def __call__(self, kind, key):
         d = self.t[kind]
         if key not in d:
-            start = 1 if kind in ('uid', 'type', 'op', 'name') else 0
-            d[key] = len(d) + start if start else len(d)
+            # kinds with a reserved token 0 hold it already; the others start at 1
+            d[key] = len(d) + (1 if kind in ('uid', 'type', 'op', 'name') else 0)
         return d[key]
 
 
@@ -772,7 +773,7 @@ def evaluate(ctx, group, items):
     if not items:
         return
     cases = [q_obs(o) for _, _, o in items]
-    res = ctx.coq_cases(group, REQ, FN, cases, 3, shard=6)
+    res = ctx.coq_cases(group, REQ, FN, cases, 3, shard=6, preamble=PRE)
     for (desc, case, o), (ag, ho, guard) in zip(items, res):
         s = summary(o, desc)
         ctx.count(group, key=json.dumps(case, sort_keys=True, default=str), nontrivial=non_trivial(o), in_guard=guard,
@@ -808,7 +809,7 @@ def evaluate_dumps(ctx, dumps):
     bad['loaded']['uid'] += 1
     cases.append(q_dump(bad))
     ctx.canaries += 1
-    res = ctx.coq_cases('dumps', REQ, DUMP_FN, cases, 2, shard=60)
+    res = ctx.coq_cases('dumps', REQ, DUMP_FN, cases, 2, shard=60, preamble=PRE)
     if res[-1] == (False, False):
         ctx.canaries_caught += 1
     for d, (ag, ho) in zip(good, res[:-1]):
@@ -895,7 +896,7 @@ def run(ctx):
         res = evaluate(ctx, 'synthetic', items)
         if bad is not None:
             ctx.canaries += 1
-            r = ctx.coq_cases('synthetic-canary', REQ, FN, [q_obs(bad)], 3)
+            r = ctx.coq_cases('synthetic-canary', REQ, FN, [q_obs(bad)], 3, preamble=PRE)
             if r[0][0] is False and r[0][1] is False:
                 ctx.canaries_caught += 1
     finally:
@@ -958,7 +959,7 @@ def light_case(ctx, h, cfg):
     except ShapeError as ex:
         ctx.disagree('light', {'cfg': cfg}, 'unexpected shape: %s' % ex)
         return
-    res = ctx.coq_cases('light', REQ, 'fun c => [light_agree %d (fst c) (snd c)]' % DEPTH, ['(%s, %s)' % (q_hist(mem), q_ehist(e))], 1)
+    res = ctx.coq_cases('light', REQ, 'fun c => [light_agree %d (fst c) (snd c)]' % DEPTH, ['(%s, %s)' % (q_hist(mem), q_ehist(e))], 1, preamble=PRE)
     ctx.count('light', key=json.dumps(cfg, sort_keys=True), nontrivial=len(mem['heap']) > 1)
     if not res[0][0]:
         ctx.disagree('light', {'cfg': cfg}, 'light save differs from the model (lighten + encode)')
